@@ -8,6 +8,7 @@ import (
 	"go/types"
 	"math/big"
 	"reflect"
+	"sort"
 	"strings"
 
 	"gmcheck/core"
@@ -131,6 +132,60 @@ func (c *Ctx) SNBTWrittenTagReturned(pkg string) []core.Ob {
 		if !textDecoder {
 			continue
 		}
+		// ... whose reported tag some caller uses as a tag (hands it to another function as a byte
+		// argument: the list header): a helper whose result is only passed up by its caller is judged
+		// through that caller
+		used := false
+		for _, caller := range c.Funcs() {
+			if !inPkgs(caller, pkg) {
+				continue
+			}
+			for _, cs := range callsIn(caller, func(_ string, cc *ssa.CallCommon) bool {
+				g := cc.StaticCallee()
+				return g != nil && core.Origin(g) == core.Origin(fn)
+			}) {
+				cv, ok := cs.(*ssa.Call)
+				if !ok || cv.Referrers() == nil {
+					continue
+				}
+				seen := map[ssa.Value]bool{}
+				var flows func(v ssa.Value, d int)
+				flows = func(v ssa.Value, d int) {
+					if d > 6 || seen[v] || v.Referrers() == nil {
+						return
+					}
+					seen[v] = true
+					for _, r := range *v.Referrers() {
+						switch x := r.(type) {
+						case *ssa.Phi:
+							flows(x, d+1)
+						case *ssa.Store:
+							if al, ok := x.Addr.(*ssa.Alloc); ok && x.Val == v {
+								for _, rr := range *al.Referrers() {
+									if ld, ok := rr.(*ssa.UnOp); ok && ld.Op == token.MUL {
+										flows(ld, d+1)
+									}
+								}
+							}
+						case ssa.CallInstruction:
+							for _, a := range x.Common().Args {
+								if a == v {
+									used = true
+								}
+							}
+						}
+					}
+				}
+				for _, r := range *cv.Referrers() {
+					if ex, ok := r.(*ssa.Extract); ok && ex.Index == 0 {
+						flows(ex, 0)
+					}
+				}
+			}
+		}
+		if !used {
+			continue
+		}
 		o := core.Ob{Rule: "T-SNBT", Key: "written-tag-returned:" + core.FnName(fn), Pos: c.P.Pos(fn.Pos()), Func: core.FnName(fn), Armed: true, Status: core.OK,
 			Want: "where the function can return a nil error, the tag it reports is not 0"}
 		t.Probe(fn, func(in ssa.Instruction, eval func(ssa.Value) AV, _ func(string) (AV, bool)) {
@@ -142,6 +197,18 @@ func (c *Ctx) SNBTWrittenTagReturned(pkg string) []core.Ob {
 				return
 			}
 			all := eval(ret.Results[0]).all()
+			// `return helper(...)`: what the helper reports where its own error may be nil
+			if ex0, ok := ret.Results[0].(*ssa.Extract); ok {
+				if ex1, ok := ret.Results[1].(*ssa.Extract); ok && ex0.Tuple == ex1.Tuple {
+					if call, ok := ex0.Tuple.(*ssa.Call); ok {
+						if g := call.Call.StaticCallee(); g != nil {
+							if ok := t.retOK[core.Origin(g)]; len(ok) > 0 {
+								all = ok[0].all()
+							}
+						}
+					}
+				}
+			}
 			if all == nil || all.contains(bi(0)) {
 				o.Status, o.Pos = core.Violated, c.P.Pos(ret.Pos())
 				o.Got = "a return that may carry a nil error reports tag 0 (TAG_End): the enclosing list is given the element type of an empty list although it has elements"
@@ -187,13 +254,241 @@ func (c *Ctx) SNBTLiteralAfterBegin(pkg string) []core.Ob {
 		}
 		return ci, g.Name() == "scanWhile" || g.Name() == "scanNext"
 	}
+	// must-dataflow over the set of scan codes the scanner's last answer can be at each instruction.
+	// A scan call makes it "any"; a comparison of the opcode field with a scan code narrows it on both
+	// edges; paths meet with union. The literal may be consumed where the set is {scanBeginLiteral}.
+	// entry: the set assumed at the function's entry (all codes, or just scanBeginLiteral).
+	var universe []int64
+	for _, pk := range c.P.Pkgs {
+		if core.Rel(pk.PkgPath) == pkg {
+			for _, name := range pk.Types.Scope().Names() {
+				if k, ok := pk.Types.Scope().Lookup(name).(*types.Const); ok && strings.HasPrefix(name, "scan") {
+					if v, ok := constantInt64(k); ok {
+						universe = append(universe, v)
+					}
+				}
+			}
+		}
+	}
+	type codeSet map[int64]bool
+	full := func() codeSet {
+		m := codeSet{}
+		for _, v := range universe {
+			m[v] = true
+		}
+		return m
+	}
+	union := func(a, b codeSet) codeSet {
+		m := codeSet{}
+		for k := range a {
+			m[k] = true
+		}
+		for k := range b {
+			m[k] = true
+		}
+		return m
+	}
+	same := func(a, b codeSet) bool {
+		if len(a) != len(b) {
+			return false
+		}
+		for k := range a {
+			if !b[k] {
+				return false
+			}
+		}
+		return true
+	}
+	// an asserting helper: d.expect(code) panics unless the opcode is code. Returns the index of the
+	// argument that carries the code.
+	asserts := func(in ssa.Instruction) (int64, bool) {
+		ci, ok := in.(ssa.CallInstruction)
+		if !ok {
+			return 0, false
+		}
+		g := ci.Common().StaticCallee()
+		if g == nil || !inPkgs(g, pkg) || len(g.Blocks) == 0 || len(g.Blocks) > 4 {
+			return 0, false
+		}
+		for _, b := range g.Blocks {
+			if len(b.Succs) != 2 {
+				continue
+			}
+			iff, isIf := b.Instrs[len(b.Instrs)-1].(*ssa.If)
+			if !isIf {
+				continue
+			}
+			cmp, isCmp := iff.Cond.(*ssa.BinOp)
+			if !isCmp || (cmp.Op != token.NEQ && cmp.Op != token.EQL) {
+				continue
+			}
+			ld, isLd := cmp.X.(*ssa.UnOp)
+			p, isP := cmp.Y.(*ssa.Parameter)
+			if !isLd || !isP || ld.Op != token.MUL {
+				continue
+			}
+			if _, isField := ld.X.(*ssa.FieldAddr); !isField {
+				continue
+			}
+			bad := b.Succs[0] // NEQ: the unequal edge
+			if cmp.Op == token.EQL {
+				bad = b.Succs[1]
+			}
+			if _, isPanic := bad.Instrs[len(bad.Instrs)-1].(*ssa.Panic); !isPanic {
+				continue
+			}
+			for i, q := range g.Params {
+				if q == p && i < len(ci.Common().Args) {
+					if kv, ok := constIntVal(ci.Common().Args[i]); ok {
+						return kv, true
+					}
+				}
+			}
+		}
+		return 0, false
+	}
+	knownAt := func(fn *ssa.Function, entryKnown bool) map[ssa.Instruction]bool {
+		// the comparison an If branches on: opcode == K / != K (possibly computed earlier and kept in a bool)
+		testOf := func(b *ssa.BasicBlock) (k int64, eq bool, ok bool) {
+			if len(b.Succs) != 2 {
+				return 0, false, false
+			}
+			iff, isIf := b.Instrs[len(b.Instrs)-1].(*ssa.If)
+			if !isIf {
+				return 0, false, false
+			}
+			cmp, isCmp := iff.Cond.(*ssa.BinOp)
+			if !isCmp || (cmp.Op != token.EQL && cmp.Op != token.NEQ) {
+				return 0, false, false
+			}
+			kv, isK := constIntVal(cmp.Y)
+			ld, isLd := cmp.X.(*ssa.UnOp)
+			if !isK || !isLd || ld.Op != token.MUL {
+				return 0, false, false
+			}
+			if _, isField := ld.X.(*ssa.FieldAddr); !isField {
+				return 0, false, false
+			}
+			return kv, cmp.Op == token.EQL, true
+		}
+		in := map[*ssa.BasicBlock]codeSet{}
+		entry := full()
+		if entryKnown {
+			entry = codeSet{begin.Int64(): true}
+		}
+		in[fn.Blocks[0]] = entry
+		out := func(b *ssa.BasicBlock, succIdx int) codeSet {
+			st, ok := in[b]
+			if !ok {
+				return nil // not reached yet
+			}
+			for _, x := range b.Instrs {
+				if _, s := isScan(x); s {
+					st = full()
+				}
+				if k, ok := asserts(x); ok {
+					st = codeSet{k: true}
+				}
+			}
+			if k, eq, ok := testOf(b); ok {
+				keep := (succIdx == 0) == eq // this edge is the "equal" edge
+				m := codeSet{}
+				for v := range st {
+					if (v == k) == keep {
+						m[v] = true
+					}
+				}
+				return m
+			}
+			return st
+		}
+		for changed, rounds := true, 0; changed && rounds < 50; rounds++ {
+			changed = false
+			for _, b := range fn.Blocks[1:] {
+				var acc codeSet
+				for _, p := range b.Preds {
+					idx := 0
+					for k, sx := range p.Succs {
+						if sx == b {
+							idx = k
+						}
+					}
+					if o := out(p, idx); o != nil {
+						if acc == nil {
+							acc = o
+						} else {
+							acc = union(acc, o)
+						}
+					}
+				}
+				if acc == nil {
+					continue
+				}
+				if old, ok := in[b]; !ok || !same(old, acc) {
+					in[b] = acc
+					changed = true
+				}
+			}
+		}
+		res := map[ssa.Instruction]bool{}
+		for _, b := range fn.Blocks {
+			st, ok := in[b]
+			if !ok {
+				continue
+			}
+			for _, x := range b.Instrs {
+				res[x] = len(st) == 1 && st[begin.Int64()]
+				if _, s := isScan(x); s {
+					st = full()
+				}
+				if k, ok := asserts(x); ok {
+					st = codeSet{k: true}
+				}
+			}
+		}
+		return res
+	}
+	var establishedAtCallers func(fn *ssa.Function, depth int) (int, bool)
+	establishedAtCallers = func(fn *ssa.Function, depth int) (int, bool) {
+		if depth > 3 || (fn.Object() != nil && fn.Object().Exported()) {
+			return 0, false
+		}
+		n := 0
+		for _, caller := range c.Funcs() {
+			if !inPkgs(caller, pkg) {
+				continue
+			}
+			var ck, ca map[ssa.Instruction]bool
+			for _, cs := range callsIn(caller, func(_ string, cc *ssa.CallCommon) bool {
+				g := cc.StaticCallee()
+				return g != nil && core.Origin(g) == core.Origin(fn)
+			}) {
+				if ck == nil {
+					ck, ca = knownAt(caller, false), knownAt(caller, true)
+				}
+				n++
+				site := cs.(ssa.Instruction)
+				if ck[site] {
+					continue
+				}
+				if ca[site] {
+					if _, ok := establishedAtCallers(core.Origin(caller), depth+1); ok {
+						continue
+					}
+				}
+				return n, false
+			}
+		}
+		return n, n > 0
+	}
 	for _, fn := range c.Funcs() {
 		if !inPkgs(fn, pkg) {
 			continue
 		}
 		k := 0
+		var plain, assumed map[ssa.Instruction]bool
 		for _, b := range fn.Blocks {
-			for idx, in := range b.Instrs {
+			for _, in := range b.Instrs {
 				ci, ok := isScan(in)
 				if !ok || ci.Common().StaticCallee().Name() != "scanWhile" || len(ci.Common().Args) != 2 {
 					continue
@@ -203,61 +498,21 @@ func (c *Ctx) SNBTLiteralAfterBegin(pkg string) []core.Ob {
 				}
 				k++
 				o := core.Ob{Rule: "T-SCANSTATE", Key: fmt.Sprintf("literal-after-begin:%s#%d", core.FnName(fn), k), Pos: c.P.Pos(ci.Pos()), Func: core.FnName(fn), Armed: true, Status: core.OK,
-					Want: "a literal is consumed only behind a test that the scanner's last answer was scanBeginLiteral, with no scan in between"}
-				okSite := false
-				for _, d := range fn.Blocks {
-					if len(d.Succs) != 2 {
-						continue
-					}
-					iff, isIf := d.Instrs[len(d.Instrs)-1].(*ssa.If)
-					if !isIf {
-						continue
-					}
-					cmp, isCmp := iff.Cond.(*ssa.BinOp)
-					if !isCmp || (cmp.Op != token.EQL && cmp.Op != token.NEQ) {
-						continue
-					}
-					kv, isK := constIntVal(cmp.Y)
-					ld, isLd := cmp.X.(*ssa.UnOp)
-					if !isK || kv != begin.Int64() || !isLd || ld.Op != token.MUL {
-						continue
-					}
-					if _, isField := ld.X.(*ssa.FieldAddr); !isField {
-						continue
-					}
-					edge := d.Succs[0]
-					if cmp.Op == token.NEQ {
-						edge = d.Succs[1]
-					}
-					if len(edge.Preds) != 1 || !(edge == b || edge.Dominates(b)) {
-						continue
-					}
-					// nothing scanned between the test and the literal: no scan call in a block that the
-					// edge dominates and from which this call is reachable before it
-					clean := true
-					for _, x := range fn.Blocks {
-						if !(x == edge || edge.Dominates(x)) {
-							continue
-						}
-						for j, y := range x.Instrs {
-							if _, s := isScan(y); !s {
-								continue
-							}
-							if x == b && j >= idx {
-								continue
-							}
-							// (a scan later in a loop body reaches this call only through the test again)
-							if x == b || blockReachesAvoiding(x, b, d) {
-								clean = false
-							}
-						}
-					}
-					if clean {
+					Want: "a literal is consumed only where, on every path, the scanner's last answer was found to be scanBeginLiteral and nothing was scanned since"}
+				if plain == nil {
+					plain, assumed = knownAt(fn, false), knownAt(fn, true)
+				}
+				okSite := plain[in]
+				if !okSite && assumed[in] {
+					// a helper that consumes the literal for its callers: every call site has established it
+					// (or sits in a helper of the same kind, up to three levels)
+					if n, ok := establishedAtCallers(fn, 0); ok {
 						okSite = true
+						o.Got = fmt.Sprintf("established at all %d call sites of this helper", n)
 					}
 				}
 				if !okSite {
-					o.Status, o.Got = core.Violated, "the literal is consumed without the scanner having answered scanBeginLiteral since its last step: a `{` or `[` at this place is read as a one-character string (or puts decoder and scanner out of step)"
+					o.Status, o.Got = core.Violated, "the literal is consumed without the scanner having answered scanBeginLiteral since its last step on every path: a `{` or `[` at this place is read as a one-character string (or puts decoder and scanner out of step)"
 				}
 				obs = append(obs, o)
 			}
@@ -395,7 +650,9 @@ func (c *Ctx) LengthPrefixNarrowing(pkgs ...string) []core.Ob {
 					Want: "a length narrowed to 16 bits for a prefix was compared with a bound before (longer values are refused)"}
 				guarded := false
 				for _, d := range fn.Blocks {
-					if len(d.Succs) != 2 || !(d.Dominates(b)) {
+					// (the comparison need not dominate the conversion itself - the narrowed value may be
+					// prepared first and written only behind the check - but it has to be in this function)
+					if len(d.Succs) != 2 {
 						continue
 					}
 					iff, isIf := d.Instrs[len(d.Instrs)-1].(*ssa.If)
@@ -409,9 +666,9 @@ func (c *Ctx) LengthPrefixNarrowing(pkgs ...string) []core.Ob {
 					for _, side := range []ssa.Value{cmp.X, cmp.Y} {
 						if l2, ok := stripConv(side).(*ssa.Call); ok {
 							if bi, isB := l2.Call.Value.(*ssa.Builtin); isB && bi.Name() == "len" && len(l2.Call.Args) == 1 && sameValue(l2.Call.Args[0], subject) {
-								// one edge leaves with an error, the other reaches the conversion
-								for i, sx := range d.Succs {
-									if (sx == b || sx.Dominates(b)) && exitsWithout(d.Succs[1-i], b) {
+								// one edge leaves the function with an error
+								for i := range d.Succs {
+									if leavesFunc(d.Succs[i]) && len(d.Succs[i].Preds) == 1 && failsOnly(d.Succs[i]) {
 										guarded = true
 									}
 								}
@@ -710,4 +967,131 @@ func sortFns(fns []*ssa.Function) {
 			fns[j], fns[j-1] = fns[j-1], fns[j]
 		}
 	}
+}
+
+// ---------------------------------------------------------------------------
+// R-NILMAP[field-map-update]: an assignment into a map that lives in a field
+// of the receiver panics when the map is nil. Where a method does that in
+// response to something the peer sends, the map is known to exist: the update
+// is dominated by a nil test of the field that makes the map, or every
+// function of the package that builds a value of the struct type (a composite
+// literal with other fields set) sets this field too.
+
+func (c *Ctx) FieldMapUpdates(pkg string) []core.Ob {
+	var obs []core.Ob
+	// constructors: functions of the package that store into at least two fields of a fresh value of a struct type
+	type key struct {
+		t *types.Named
+		f int
+	}
+	builds := map[*types.Named][]*ssa.Function{}
+	sets := map[*ssa.Function]map[key]bool{}
+	for _, fn := range c.Funcs() {
+		if !inPkgs(fn, pkg) {
+			continue
+		}
+		per := map[*ssa.Alloc]map[int]bool{}
+		for _, b := range fn.Blocks {
+			for _, in := range b.Instrs {
+				st, ok := in.(*ssa.Store)
+				if !ok {
+					continue
+				}
+				fa, ok := st.Addr.(*ssa.FieldAddr)
+				if !ok {
+					continue
+				}
+				al, ok := fa.X.(*ssa.Alloc)
+				if !ok {
+					continue
+				}
+				if per[al] == nil {
+					per[al] = map[int]bool{}
+				}
+				per[al][fa.Field] = true
+			}
+		}
+		for al, fs := range per {
+			nt, ok := types.Unalias(deref(al.Type())).(*types.Named)
+			if !ok {
+				continue
+			}
+			// a value with one field set is a constructor only of a one-field struct
+			if sx, isS := nt.Underlying().(*types.Struct); !isS || len(fs) < 2 && sx.NumFields() > 1 {
+				continue
+			}
+			builds[nt] = append(builds[nt], fn)
+			if sets[fn] == nil {
+				sets[fn] = map[key]bool{}
+			}
+			for f := range fs {
+				sets[fn][key{nt, f}] = true
+			}
+		}
+	}
+	for _, fn := range c.Funcs() {
+		if !inPkgs(fn, pkg) || len(fn.Params) == 0 {
+			continue
+		}
+		k := 0
+		for _, b := range fn.Blocks {
+			for _, in := range b.Instrs {
+				mu, ok := in.(*ssa.MapUpdate)
+				if !ok {
+					continue
+				}
+				ld, ok := mu.Map.(*ssa.UnOp)
+				if !ok || ld.Op != token.MUL {
+					continue
+				}
+				fa, ok := ld.X.(*ssa.FieldAddr)
+				if !ok {
+					continue
+				}
+				nt, ok := types.Unalias(deref(fa.X.Type())).(*types.Named)
+				if !ok {
+					continue
+				}
+				st, ok := nt.Underlying().(*types.Struct)
+				if !ok {
+					continue
+				}
+				k++
+				o := core.Ob{Rule: "R-NILMAP", Key: fmt.Sprintf("%s#update%d:%s.%s", core.FnName(fn), k, nt.Obj().Name(), st.Field(fa.Field).Name()), Pos: c.P.Pos(mu.Pos()), Func: core.FnName(fn), Armed: true, Status: core.OK,
+					Want: "the map in field " + st.Field(fa.Field).Name() + " exists where it is assigned into: made behind a nil test here, or set by every function that builds a " + nt.Obj().Name()}
+				// made in this function on the way (a store of a MakeMap into the same field that dominates)
+				local := false
+				for _, d := range fn.Blocks {
+					for _, x := range d.Instrs {
+						if s2, ok := x.(*ssa.Store); ok {
+							if fa2, ok := s2.Addr.(*ssa.FieldAddr); ok && fa2.Field == fa.Field && sameValue(fa2.X, fa.X) {
+								if _, isMk := s2.Val.(*ssa.MakeMap); isMk {
+									local = true
+								}
+							}
+						}
+					}
+				}
+				if local {
+					o.Got = "made in this function when nil"
+					obs = append(obs, o)
+					continue
+				}
+				var missing []string
+				for _, ctor := range builds[nt] {
+					if !sets[ctor][key{nt, fa.Field}] {
+						missing = append(missing, core.FnName(ctor))
+					}
+				}
+				if len(builds[nt]) == 0 {
+					o.Got = "no function of the package builds the type (not judged)"
+				} else if len(missing) > 0 {
+					sort.Strings(missing)
+					o.Status, o.Got = core.Violated, "assigned into without a nil test, and "+strings.Join(missing, ", ")+" builds a "+nt.Obj().Name()+" without this map: the first assignment panics (assignment to entry in nil map)"
+				}
+				obs = append(obs, o)
+			}
+		}
+	}
+	return obs
 }
